@@ -20,6 +20,23 @@ theorem vset_ne (v : View) {i j : Nat} (c : Cell) (h : j ≠ i) : vset v i c j =
 @[simp] theorem vdel_self (v : View) (i : Nat) : vdel v i i = none := by simp [vdel]
 theorem vdel_ne (v : View) {i j : Nat} (h : j ≠ i) : vdel v i j = v j := by simp [vdel, h]
 
+/-- The payload at an address (anything for a dead address; only used under liveness facts). -/
+def payOf (v : View) (i : Nat) : Pay :=
+  match v i with
+  | some c => c.pay
+  | none => .cdata
+
+theorem payOf_vset_self (v : View) (i : Nat) (c : Cell) : payOf (vset v i c) i = c.pay := by simp [payOf]
+theorem payOf_vset_ne (v : View) {i j : Nat} (c : Cell) (h : j ≠ i) : payOf (vset v i c) j = payOf v j := by
+  simp [payOf, vset_ne _ _ h]
+theorem payOf_vdel_ne (v : View) {i j : Nat} (h : j ≠ i) : payOf (vdel v i) j = payOf v j := by
+  simp [payOf, vdel_ne _ h]
+theorem payOf_vset_same {v : View} {i : Nat} {c0 c : Cell} (h : v i = some c0) (hp : c.pay = c0.pay) (j : Nat) :
+    payOf (vset v i c) j = payOf v j := by
+  by_cases hj : j = i
+  · subst hj; simp [payOf, h, hp]
+  · exact payOf_vset_ne v c hj
+
 /-- `s.heap.set i c` with the other fields kept. -/
 def St.setCell (s : St) (i : Nat) (c : Cell) : St := { s with heap := s.heap.set i c }
 
